@@ -612,6 +612,17 @@ func isNullValue(fd protoreflect.FieldDescriptor) bool {
 
 type params []param
 
+// ownField returns m's own descriptor for fd: the rule may have been compiled
+// from another copy or revision of the descriptors than m was built with.
+func ownField(m protoreflect.Message, fd protoreflect.FieldDescriptor) protoreflect.FieldDescriptor {
+	if d := m.Descriptor(); fd.Parent() != d {
+		if own := d.Fields().ByNumber(fd.Number()); own != nil {
+			return own
+		}
+	}
+	return fd
+}
+
 func (ps params) set(m proto.Message) error {
 	for _, p := range ps {
 		cur := m.ProtoReflect()
